@@ -25,11 +25,11 @@ if [ ! -f "$demo" ]; then echo "RESULT $NAME: NO-DEMO-TEST (manual)"; exit 3; fi
 dir=$(head -1 "$demo" | sed -n 's/.*copy to: *\([^ ]*\).*/\1/p' | sed 's/`//g')
 [ -z "$dir" ] && { echo "RESULT $NAME: NO-COPY-TO-LINE"; exit 3; }
 cp "$demo" "$WT/$dir/zz_seed_demo_test.go"
-with=$($VGO test -vet=off -count=1 ./$dir 2>&1 | tail -3)
+with=$($VGO test ${SEED_TEST_FLAGS:-} -vet=off -count=1 ./$dir 2>&1 | tail -3)
 wrc=$?
-$VGO test -vet=off -count=1 ./$dir >/dev/null 2>&1; wrc=$?
+$VGO test ${SEED_TEST_FLAGS:-} -vet=off -count=1 ./$dir >/dev/null 2>&1; wrc=$?
 git apply -R /tmp/sv/$NAME.patch
-$VGO test -vet=off -count=1 ./$dir >/dev/null 2>&1; orc=$?
+$VGO test ${SEED_TEST_FLAGS:-} -vet=off -count=1 ./$dir >/dev/null 2>&1; orc=$?
 if [ $wrc -ne 0 ] && [ $orc -eq 0 ]; then
   echo "RESULT $NAME: CONFIRMED (suite passes with patch; demo fails with patch, passes without)"
   mkdir -p /verif/seeded/$NAME
